@@ -201,13 +201,73 @@ def _run(ctx, case):
     return run_reject(ctx, case, rng, report)
 
 
+
+# ------------------------------------------------------------------------------------------------ model side (Model/TTMatMul.lean)
+def _model_on(ctx):
+    return getattr(ctx, "use_model", False) and not getattr(ctx, "search_only", False)
+
+
+def _ser_cores(cs):
+    from core import q
+    return "%d %s" % (len(cs), " ".join("%s %s" % (" ".join(str(int(v)) for v in c.shape), " ".join(q(v) for v in c.reshape(-1))) for c in cs))
+
+
+def _qs(toks):
+    from core import unq
+    return np.array([float(unq(x.split("~")[0])) for x in toks[2:]])
+
+
+def model_tt(ctx, case, ttm, impl, v):
+    """impl: dict of the implementation's answers (torch, trace, mul) for a NON-batch TTMatrix; compared with the compiled Lean model on the
+    implementation's own cores (theorems C19.trace_eq, tt_multiply_eq, tt_multiply_dense are about exactly these functions)"""
+    cs = npcores(ttm)
+    rows = int(np.prod([c.shape[1] for c in cs])); cols = int(np.prod([c.shape[2] for c in cs]))
+    if rows * cols > 300 or max(c.shape[0] for c in cs) > 4:
+        ctx.count("model:tt skipped (size)"); return
+    ser = _ser_cores(cs)
+    if impl.get("torch") is not None:
+        a = ctx.drv().call("tt_dense " + ser); ctx.count("model:tt_dense")
+        if a[0] != "ok" or not close(_qs(a).reshape(rows, cols), impl["torch"], rtol=1e-9)[0]:
+            ctx.corr("TTMatrix.torch(): implementation differs from the model on the same cores (%s)" % (a[:3],), case)
+    if impl.get("trace") is not None:
+        a = ctx.drv().call("tt_trace " + ser); ctx.count("model:tt_trace")
+        if a[0] != "ok" or not close(_qs(["ok"] + a[1:]), np.array([impl["trace"]]).reshape(-1), rtol=1e-9)[0]:
+            ctx.corr("TTMatrix.trace(): implementation %s, model %s" % (impl["trace"], a[:4]), case)
+    if impl.get("mul") is not None:
+        from core import q
+        x = v.reshape(-1, rows)
+        a = ctx.drv().call("tt_matvec %s %d %s" % (ser, x.shape[0], " ".join(q(t) for t in x.reshape(-1)))); ctx.count("model:tt_matvec")
+        if a[0] != "ok" or not close(_qs(a), impl["mul"].reshape(-1), rtol=1e-9)[0]:
+            ctx.corr("tt_multiply: implementation differs from the model on the same cores and vectors (%s)" % (a[:3],), case)
+
+
+def model_cp(ctx, case, cs, impl, v):
+    rows = int(np.prod([c.shape[0] for c in cs])); cols = int(np.prod([c.shape[1] for c in cs]))
+    if rows * cols > 300:
+        ctx.count("model:cp skipped (size)"); return
+    ser = _ser_cores(cs)
+    if impl.get("torch") is not None:
+        a = ctx.drv().call("cp_dense " + ser); ctx.count("model:cp_dense")
+        if a[0] != "ok" or not close(_qs(a).reshape(rows, cols), impl["torch"], rtol=1e-9)[0]:
+            ctx.corr("CPMatrix.torch(): implementation differs from the model on the same factors (%s)" % (a[:3],), case)
+    if impl.get("mul") is not None:
+        from core import q
+        x = v.reshape(-1, rows)
+        a = ctx.drv().call("cp_matvec %s %d %s" % (ser, x.shape[0], " ".join(q(t) for t in x.reshape(-1)))); ctx.count("model:cp_matvec")
+        if a[0] != "ok" or not close(_qs(a), impl["mul"].reshape(-1), rtol=1e-9)[0]:
+            ctx.corr("cp_multiply: implementation differs from the model on the same factors and vectors (%s)" % (a[:3],), case)
+
+
 def check_tt_observables(ctx, case, rng, report, ttm, Ds, desc, square_blocks):
     """ttm: a TTMatrix; Ds: list of dense oracle matrices (one per batch element, or a single one for non-batch)"""
     batch = case.get("batch")
     pred_b = "batch" if batch else "non-batch"
     rows, cols = Ds[0].shape
     exp = np.stack(Ds) if batch else Ds[0]
+    impl = {}
     r = safe(lambda: num(ttm.torch()))
+    if r[0] == "ok":
+        impl["torch"] = r[1]
     if r[0] == "err":
         report("TTMatrix.torch", "%s, %s" % (pred_b, desc), "TTMatrix.torch() raised %s: %s" % (r[1], r[2]), raises=r[1])
     else:
@@ -217,6 +277,8 @@ def check_tt_observables(ctx, case, rng, report, ttm, Ds, desc, square_blocks):
                    % (err, case["ind"], case["outd"]))
     # trace
     r = safe(lambda: num(ttm.trace()))
+    if square_blocks and r[0] == "ok":
+        impl["trace"] = r[1]
     if square_blocks:
         want = np.array([np.trace(D) for D in Ds]) if batch else np.trace(Ds[0])
         if r[0] == "err":
@@ -243,6 +305,13 @@ def check_tt_observables(ctx, case, rng, report, ttm, Ds, desc, square_blocks):
         ctx.count("tt_multiply:batch_matrix_not_claimed")
         return
     r = safe(lambda: num(tn.tt_multiply(ttm, T(v))))
+    if r[0] == "ok":
+        impl["mul"] = r[1]
+    if _model_on(ctx):
+        try:
+            model_tt(ctx, case, ttm, impl, v)
+        except Exception as e:  # noqa
+            ctx.corr("TT-matrix model hook raised %s: %s" % (type(e).__name__, str(e)[:200]), case)
     want = v.reshape(-1, rows) @ Ds[0]
     pv = "%d-way argument" % (len(vs) + 1)
     if r[0] == "err":
@@ -336,7 +405,10 @@ def run_cp(ctx, case, rng, report):
         report("CPMatrix(M)", "any", "factor shapes %s, expected (i_k, o_k, %d)" % ([c.shape for c in cs], rank))
         return
     D = dense_cp(cs)
+    impl = {}
     r = safe(lambda: num(cpm.torch()))
+    if r[0] == "ok":
+        impl["torch"] = r[1]
     if r[0] == "err":
         report("CPMatrix.torch", "any", "CPMatrix.torch() raised %s: %s" % (r[1], r[2]), raises=r[1])
     else:
@@ -352,6 +424,13 @@ def run_cp(ctx, case, rng, report):
     vs = case["vshape"]
     v = gauss(rng, vs + [rows])
     r = safe(lambda: num(tn.cp_multiply(cpm, T(v))))
+    if r[0] == "ok":
+        impl["mul"] = r[1]
+    if _model_on(ctx):
+        try:
+            model_cp(ctx, case, cs, impl, v)
+        except Exception as e:  # noqa
+            ctx.corr("CP-matrix model hook raised %s: %s" % (type(e).__name__, str(e)[:200]), case)
     want = v.reshape(-1, rows) @ D
     pv = "%d-way argument" % (len(vs) + 1)
     if r[0] == "err":
@@ -412,6 +491,13 @@ def run_kron(ctx, case, rng, report):
             ok, err = rel_ok(num(val), want, 1e-8)
             if not ok:
                 report(op, pred, "determinant() = %s, numpy det of the dense product = %s (%s)" % (num(val), want, err))
+            if _model_on(ctx) and not batch:
+                # the loop of determinant() (Model kronDet, theorem C19.det_n_blocks) on the block determinants LAPACK returns
+                from core import q
+                a = ctx.drv().call("kron_det %d %s" % (d, " ".join("%d %s" % (n, q(float(np.linalg.det(b)))) for n, b in zip(ns, blocks[0]))))
+                ctx.count("model:kron_det")
+                if a[0] != "ok" or not rel_ok(_qs(["ok"] + a[1:])[0], float(num(val)), 1e-8)[0]:
+                    ctx.corr("determinant(): implementation %s, model loop on the block determinants %s" % (num(val), a[:4]), case)
         elif op == "slog_determinant":
             sg, ld = val
             ws = [np.linalg.slogdet(K) for K in Ks]
